@@ -389,7 +389,7 @@ Qed.
 (* the program                                                          *)
 
 Lemma import_prog_eq : import_prog =
-  [OCheckSettings; OLocate; OReadMeta; OCheckComplete; OCheckMembers; ONewEnv;
+  [OCheckSettings; OLocate; OReadMeta; OCheckComplete; OCheckExtFiles; OCheckMembers; ONewEnv;
    OCreateNodeHostDir; OOpenLogDB; OCheckNodeHostDir; OCleanup; OCreateSSDir;
    OCreateTemp; OProcess; OCopy; OFinalize; OLogDBImport].
 Proof. vm_compute. reflexivity. Qed.
@@ -397,7 +397,7 @@ Proof. vm_compute. reflexivity. Qed.
 (* structural form of "every check precedes the first mutating step" *)
 Definition is_check (o : op) : bool :=
   match o with
-  | OCheckSettings | OLocate | OReadMeta | OCheckComplete | OCheckMembers => true
+  | OCheckSettings | OLocate | OReadMeta | OCheckComplete | OCheckExtFiles | OCheckMembers => true
   | _ => false
   end.
 
@@ -421,14 +421,15 @@ Definition all_checks_pass (inp : input) (old : snapshot) : Prop :=
   (exists f, locate_snapshot_file (in_src_exists inp) (in_entries inp) = LocOk f) /\
   in_meta inp = MetaOk old /\
   is_complete_image (in_file inp) (s_checksum old) = ImageComplete /\
+  has_all_external_files (s_files old) (in_entries inp) = true /\
   check_members (s_membership old) (in_members inp) = None.
 
-(* refusals that are verdicts of the five checks (not I/O errors of later steps) *)
+(* refusals that are verdicts of the checks (not I/O errors of later steps) *)
 Definition check_refusal (r : refusal) : Prop :=
   match r with
   | RInvalidMembers _ | RPathNotExist | RIncompleteFiles | RMetaErr | RMetaPanic
-  | RImageErr | RIncompleteImage | RMembers _ => True
-  | REnv o => o = OLocate
+  | RImageErr | RIncompleteImage | RIncompleteExt | RMembers _ => True
+  | REnv o => o = OLocate \/ o = OCheckExtFiles
   | RBadProgram => False
   end.
 
@@ -448,7 +449,7 @@ Lemma run_step_last inp st r st' ss :
 Proof. intros H G. cbn [run_ops]. rewrite H, G. reflexivity. Qed.
 
 Local Opaque check_import_settings locate_snapshot_file is_complete_image check_members
-  get_processed.
+  get_processed has_all_external_files.
 
 Ltac safe_tr := let o := fresh in let H := fresh in
   intros o H; cbn [In rev app st_trace] in H;
@@ -477,7 +478,7 @@ Proof.
   destruct (locate_snapshot_file (in_src_exists inp) (in_entries inp)) as [f| |] eqn:E2;
     [|step_fail E2; intros [= <- <-]; right; split; [safe_tr|eexists; split; [reflexivity|exact I]]..].
   destruct (env_fails inp OLocate) eqn:F2.
-  { step_fail2 E2 F2. intros [= <- <-]. right. split; [safe_tr|eexists; split; reflexivity]. }
+  { step_fail2 E2 F2. intros [= <- <-]. right. split; [safe_tr|eexists; split; [reflexivity|left; reflexivity]]. }
   step_ok2 E2 F2.
   destruct (in_meta inp) as [old| |] eqn:E3;
     [|step_fail E3; intros [= <- <-]; right; split; [safe_tr|eexists; split; [reflexivity|exact I]]..].
@@ -485,12 +486,24 @@ Proof.
   destruct (is_complete_image (in_file inp) (s_checksum old)) eqn:E4;
     [|step_fail E4; intros [= <- <-]; right; split; [safe_tr|eexists; split; [reflexivity|exact I]]..].
   step_ok E4.
+  destruct (has_all_external_files (s_files old) (in_entries inp)) eqn:E6;
+    [|step_fail E6; intros [= <- <-]; right; split; [safe_tr|eexists; split; [reflexivity|exact I]]].
+  destruct (env_fails inp OCheckExtFiles) eqn:F6.
+  { step_fail2 E6 F6. intros [= <- <-]. right. split; [safe_tr|eexists; split; [reflexivity|right; reflexivity]]. }
+  step_ok2 E6 F6.
   destruct (check_members (s_membership old) (in_members inp)) eqn:E5;
     [step_fail E5; intros [= <- <-]; right; split; [safe_tr|eexists; split; [reflexivity|exact I]]|].
   intros _. left. exists old. repeat split; eauto.
 Qed.
 
-(* any executed mutating step implies that all five checks passed *)
+Local Transparent has_all_external_files.
+Lemma has_all_external_files_spec files entries :
+  has_all_external_files files entries = true <->
+  forall f, In f files -> ext_file_present entries f = true.
+Proof. unfold has_all_external_files. apply forallb_forall. Qed.
+Local Opaque has_all_external_files.
+
+(* any executed mutating step implies that all the checks passed *)
 Lemma refusal_precedes_any_mutation_proved inp tr out :
   import_run inp = (tr, out) ->
   forall o, In o tr -> mutating o = true -> exists old, all_checks_pass inp old.
@@ -519,6 +532,9 @@ Definition refusal_condition (inp : input) : Prop :=
   (forall old, in_meta inp <> MetaOk old) \/
   (* the recorded checksum is not the checksum of the file *)
   (exists old, in_meta inp = MetaOk old /\ payload_checksum (in_file inp) <> CkOk (s_checksum old)) \/
+  (* an external file named in the metadata is missing, a directory, or of another size *)
+  (exists old f, in_meta inp = MetaOk old /\ In f (s_files old) /\
+                 ext_file_present (in_entries inp) f = false) \/
   (* the list changes the address or kind of a member or re-admits a removed replica *)
   (exists old id a, in_meta inp = MetaOk old /\ In (id, a) (in_members inp) /\
                     bad_member (s_membership old) id a).
@@ -527,33 +543,37 @@ Lemma import_refused_when_proved inp :
   refusal_condition inp ->
   exists tr r, import_run inp = (tr, Refused r) /\ check_refusal r /\ safe_trace tr.
 Proof.
-  intros Hc. apply failed_check_refused. intros (old & H1 & (f & H2) & H3 & H4 & H5).
+  intros Hc. apply failed_check_refused. intros (old & H1 & (f & H2) & H3 & H4 & H6 & H5).
   apply check_import_settings_ok in H1. apply locate_ok in H2 as [H2 H2'].
   apply is_complete_image_spec in H4.
-  destruct Hc as [Hc|[Hc|[Hc|[Hc|[Hc|Hc]]]]].
+  destruct Hc as [Hc|[Hc|[Hc|[Hc|[Hc|[Hc|Hc]]]]]].
   - contradiction.
   - congruence.
   - rewrite H2' in Hc. apply Hc. reflexivity.
   - exact (Hc old H3).
   - destruct Hc as (old' & Hm & Hne). rewrite H3 in Hm. injection Hm as <-. contradiction.
+  - destruct Hc as (old' & xf & Hm & Hin & Hp). rewrite H3 in Hm. injection Hm as <-.
+    pose proof (proj1 (has_all_external_files_spec _ _) H6 xf Hin) as H6'. rewrite H6' in Hp. discriminate.
   - destruct Hc as (old' & id & a & Hm & Hin & Hbad). rewrite H3 in Hm. injection Hm as <-.
     exact (check_members_refuses _ _ _ _ Hin Hbad H5).
 Qed.
 
-(* and conversely: when none of the conditions holds all five checks pass *)
+(* and conversely: when none of the conditions holds all checks pass *)
 Lemma checks_pass_when inp old :
   alookup (in_replica inp) (in_members inp) = Some (in_raft_address inp) ->
   in_src_exists inp = true -> (exists f, snapshot_files (in_entries inp) = [f]) ->
   in_meta inp = MetaOk old ->
   payload_checksum (in_file inp) = CkOk (s_checksum old) ->
+  (forall f, In f (s_files old) -> ext_file_present (in_entries inp) f = true) ->
   (forall id a, In (id, a) (in_members inp) -> ~ bad_member (s_membership old) id a) ->
   all_checks_pass inp old.
 Proof.
-  intros H1 H2 (f & H3) H4 H5 H6. unfold all_checks_pass. repeat split.
+  intros H1 H2 (f & H3) H4 H5 H7 H6. unfold all_checks_pass. repeat split.
   - apply check_import_settings_ok, H1.
   - exists f. apply locate_ok. auto.
   - exact H4.
   - apply is_complete_image_spec, H5.
+  - apply has_all_external_files_spec, H7.
   - apply check_members_accepts, H6.
 Qed.
 
@@ -575,16 +595,17 @@ Ltac step_env inp :=
 Lemma import_run_success inp old :
   all_checks_pass inp old -> in_env_fail inp = [] ->
   import_run inp =
-    ([OCheckSettings; OLocate; OReadMeta; OCheckComplete; OCheckMembers; ONewEnv;
+    ([OCheckSettings; OLocate; OReadMeta; OCheckComplete; OCheckExtFiles; OCheckMembers; ONewEnv;
       OCreateNodeHostDir; OOpenLogDB; OCheckNodeHostDir;
       if in_ssdir_exists inp then OCleanup else OCreateSSDir;
       OCreateTemp; OProcess; OCopy; OFinalize; OLogDBImport],
      Imported (get_processed (in_final_dir inp) old (in_members inp))).
 Proof.
-  intros (H1 & (f & H2) & H3 & H4 & H5) He.
+  intros (H1 & (f & H2) & H3 & H4 & H6 & H5) He.
   pose proof (env_fails_nil inp) as Hf.
   unfold import_run. rewrite import_prog_eq. unfold init_state.
-  step_ok H1. step_ok2 H2 (Hf OLocate He). step_ok H3. step_ok H4. step_ok H5.
+  step_ok H1. step_ok2 H2 (Hf OLocate He). step_ok H3. step_ok H4.
+  step_ok2 H6 (Hf OCheckExtFiles He). step_ok H5.
   step_ok (Hf ONewEnv He). step_ok (Hf OCreateNodeHostDir He). step_ok (Hf OOpenLogDB He).
   step_ok (Hf OCheckNodeHostDir He).
   destruct (in_ssdir_exists inp) eqn:Ex.
@@ -612,11 +633,13 @@ Lemma import_run_imported inp tr ss :
 Proof.
   intros H. destruct (import_run_checks _ _ _ H) as [(old & Hp)|(_ & r & [=] & _)].
   exists old. split; [exact Hp|].
-  destruct Hp as (H1 & (f & H2) & H3 & H4 & H5).
+  destruct Hp as (H1 & (f & H2) & H3 & H4 & H6 & H5).
   revert H. unfold import_run. rewrite import_prog_eq. unfold init_state.
   step_ok H1.
   destruct (env_fails inp OLocate) eqn:F2; [step_fail2 H2 F2; intros [=]|step_ok2 H2 F2].
-  step_ok H3. step_ok H4. step_ok H5.
+  step_ok H3. step_ok H4.
+  destruct (env_fails inp OCheckExtFiles) eqn:F6; [step_fail2 H6 F6; intros [=]|step_ok2 H6 F6].
+  step_ok H5.
   step_env inp; [intros [=]|]. step_env inp; [intros [=]|]. step_env inp; [intros [=]|].
   step_env inp; [intros [=]|].
   destruct (in_ssdir_exists inp) eqn:Ex.
